@@ -3,10 +3,14 @@ T_CFG = "custom static analysis over clang CFG facts (libTooling extractor + Pyt
 CHECKS = {
  "C04": ("decides necessary structural conditions of memory-safe decoding on every path: no call through a NULL op-table slot on the decode/free/print/compare side (assume-NULL reachability over all op tables)",
          "assume-NULL CFG reachability over op-table initializers; " + T_CFG, "4 C04"),
+ "C05": ("decides on every path of every BER/OER/XER decoder: a decoder that keeps no context reports nothing consumed with RC_WMORE; header octets are never reported consumed with RC_WMORE unless the context was updated after fetching them; RC_WMORE never reports 0 after state was saved and input consumed; a fetch routine's `need more` answer becomes RC_WMORE",
+         "dataflow return abstraction (code, consumed) + path-sensitive CFG walk correlating context writes, cursor advances and returns; assume-zero exploration of fetch results", "4 C05"),
  "C07": ("decides on every path of every encoder: a failed output call (callback, bit writer, member encoder) always becomes a failing return (assume-failure path exploration with correlated branches); no loop that can never end in success; no NULL encoder slot call; bounded copy, always-count and EIO obligations of the asn_application.c wrappers",
          "fallible-call set by call-graph closure + assume-failure path-sensitive CFG exploration; loop-cycle invariance; must-pass-through", "4 C07"),
  "C08": ("decides: container constraint walkers cannot return success from inside the member loop; a checker always exists (descriptor tables + assume-NULL fallback); the error text writes in constraints.c are bounded by the caller's length",
          "AST/CFG rules over return sites, initializer tables, assume-NULL reachability, bounded-index dominance", "4 C08"),
+ "C14": ("decides for every function-local allocation: freed, handed over or moved on every path to a return, never freed twice, never used when NULL (path-sensitive ownership walk with alias groups, guard flags, heap-or-stack buffers); no self-assigning realloc; free functions handle the three disposal methods and release ctx->ptr; CHOICE decoders record the alternative around the member decode",
+         "path-sensitive ownership/typestate analysis over clang CFG facts with helper summaries; switch-case coverage; dominance/must-pass-through", "4 C14"),
  "C15": ("decides: every call-graph cycle reachable from a decoder passes a used stack-limit check on each iteration (SCCs over slot-resolved call graph, guarded-edge removal); decode entry points install a non-zero limit in a context on their own stack on every path",
          "call-graph SCC + dominance of checker calls with failure-edge pruning; must-pass-through on entry points", "4 C15"),
  "C19": ("effect analysis over the resolved call graph: no write to static storage, no store through descriptor pointers, no process-global libc calls, in everything reachable from the codec/print/free/validate entry points",
